@@ -215,9 +215,10 @@ func (x *hrRun) setdl(expire bool) {
 }
 
 type hrRet struct {
-	n   int
-	err error
-	buf []byte
+	n     int
+	err   error
+	buf   []byte
+	panic string // non-empty: the call panicked
 }
 
 // reader issues one Read/ReadMsg with an n-byte buffer and judges the return.
@@ -240,8 +241,13 @@ func (x *hrRun) reader(msg bool, n int) {
 	ch := make(chan hrRet, 1)
 	buf := bytes.Repeat([]byte{0xEE}, n)
 	go func() {
-		k, err := x.g.read(msg, buf)
-		ch <- hrRet{k, err, buf}
+		var k int
+		var err error
+		if p, pm := hv.Catch(func() { k, err = x.g.read(msg, buf) }); p {
+			ch <- hrRet{panic: "panic: " + pm}
+			return
+		}
+		ch <- hrRet{n: k, err: err, buf: buf}
 	}()
 	wait := 10 * time.Second // generous: the machine may be busy; a call that needs this long has hung
 	if wouldBlock {
@@ -275,6 +281,12 @@ func (x *hrRun) reader(msg bool, n int) {
 		return
 	}
 
+	if ret.panic != "" {
+		x.ev(op, "Vn", tag+"=panic")
+		x.fail("C17:handle-read-panic", tag+" panicked: "+ret.panic)
+		x.dead = true
+		return
+	}
 	// generator view: did this call take a message off the queue?
 	if len(x.qlens) > 0 && x.g.h.VerifRecvLen() < len(x.qlens) {
 		x.qlens = x.qlens[1:]
@@ -292,7 +304,10 @@ func (x *hrRun) reader(msg bool, n int) {
 		if x.sawEOF && ret.n > 0 {
 			x.fail("C17:handle-read-data-after-eof", fmt.Sprintf("%s returned %d bytes after an earlier read had reported end-of-stream", tag, ret.n))
 		}
-		rest := x.accepted[len(x.delivered):]
+		var rest []byte // (more delivered than queued = duplicated bytes: rest stays empty)
+		if len(x.delivered) <= len(x.accepted) {
+			rest = x.accepted[len(x.delivered):]
+		}
 		if !bytes.HasPrefix(rest, data) {
 			x.fail("C17:handle-read-bytes-differ-from-queued-stream", fmt.Sprintf("%s returned %x; the queued bytes not yet delivered start with %x (lost, duplicated or reordered bytes)", tag, data, rest[:min(len(rest), len(data)+8)]))
 		}
